@@ -45,9 +45,11 @@ fn gen_value(rng: &mut Rng, kind: u64, t: u64, r: u64) -> ReplicatedValue {
         3 => { let mut g = GCounter::new(); g.increment_by(ReplicaId(r), t); let mut v = ReplicatedValue::with_crdt(CrdtValue::GCounter(g), ReplicaId(r)); v.timestamp = ts; v }
         _ => { let mut p = PNCounter::new(); p.increment_by(ReplicaId(r), t); p.decrement_by(ReplicaId(r), t / 2); let mut v = ReplicatedValue::with_crdt(CrdtValue::PNCounter(p), ReplicaId(r)); v.timestamp = ts; v }
     };
-    if (t + r) % 3 == 0 { v.expiry_ms = Some(1000 * t + r); }
-    if (t * 7 + r) % 5 == 0 { v.replication_factor = Some(((t + r) % 4 + 1) as u8); }
-    if (t + 2 * r) % 4 == 0 { let mut vc = VectorClock::new(); for _ in 0..(t % 3 + 1) { vc.increment(ReplicaId(r)); } v.vector_clock = Some(vc); }
+    // metadata is a pseudo-random FUNCTION of the stamp (a stamp identifies one write), not monotone in it
+    let h = (t.wrapping_mul(2654435761).wrapping_add(r.wrapping_mul(40503))) ^ (t << 7) ^ (r << 3);
+    if h % 3 != 0 { v.expiry_ms = Some(1000 * ((h >> 3) % 9 + 1)); }
+    if (h >> 8) % 4 == 0 { v.replication_factor = Some(((h >> 11) % 4 + 1) as u8); }
+    if (h >> 16) % 3 == 0 { let mut vc = VectorClock::new(); for _ in 0..((h >> 19) % 3 + 1) { vc.increment(ReplicaId(r)); } v.vector_clock = Some(vc); }
     let _ = rng;
     v
 }
@@ -170,6 +172,35 @@ fn check_shard(rng: &mut Rng, iters: u64) -> Option<Found> {
     None
 }
 
+/// restart: a fresh shard replays its own persisted deltas (source_replica == own id), then writes
+fn check_restart(rng: &mut Rng, iters: u64) -> Option<Found> {
+    for _ in 0..iters {
+        let mut s = ShardReplicaState::new(ReplicaId(1), ConsistencyLevel::Eventual);
+        let mut deltas = Vec::new();
+        let n = rng.below(6) + 1;
+        for i in 0..n {
+            let k = format!("k{}", rng.below(3));
+            if rng.chance(1, 4) { if let Some(d) = s.record_delete(k.clone()) { deltas.push(d); } }
+            else { deltas.push(s.record_write(k, SDS::from_str(&format!("v{}", i)), None)); }
+        }
+        let mut fresh = ShardReplicaState::new(ReplicaId(1), ConsistencyLevel::Eventual);
+        let viarecover = rng.chance(1, 2);
+        for d in &deltas {
+            if viarecover { fresh.install_recovered(d.key.clone(), d.value.clone()); } else { fresh.apply_remote_delta(d.clone()); }
+        }
+        let seen_max = fresh.replicated_keys.values().map(|v| v.timestamp).max();
+        let d = fresh.record_write("k0".to_string(), SDS::from_str("after-restart"), None);
+        if let Some(m) = seen_max {
+            if !(d.value.timestamp > m) {
+                return Some(Found { input: format!("{} own deltas replayed into a fresh shard via {}; then SET k0", deltas.len(), if viarecover { "install_recovered" } else { "apply_remote_delta" }),
+                    observed: format!("write after restart stamped ({},{})", d.value.timestamp.time, d.value.timestamp.replica_id.0),
+                    required: format!("strictly greater than every recovered stamp, e.g. ({},{})", m.time, m.replica_id.0) });
+            }
+        }
+    }
+    None
+}
+
 pub fn search(_pid: &str, oid: &str, seed: u64) -> Option<Found> {
     let mut rng = Rng::new(seed + 1);
     let f = oid.split('/').nth(1).unwrap_or("");
@@ -178,9 +209,11 @@ pub fn search(_pid: &str, oid: &str, seed: u64) -> Option<Found> {
     }
     if f.starts_with("ShardReplicaState") || f.starts_with("ReplicatedValue::set") || f.starts_with("ReplicatedValue::delete") || f.starts_with("ReplicatedValue::new") {
         if let Some(x) = check_shard(&mut rng, 3000) { return Some(x); }
+        if let Some(x) = check_restart(&mut rng, 500) { return Some(x); }
     }
     if let Some(x) = check_order() { return Some(x); }
     if let Some(x) = check_aci(&mut rng, false, 3000) { return Some(x); }
     if let Some(x) = check_shard(&mut rng, 1500) { return Some(x); }
+    if let Some(x) = check_restart(&mut rng, 500) { return Some(x); }
     None
 }
